@@ -46,7 +46,12 @@ StreamSpecs == {<<100, 0, 0, "none">>, <<101, 0, 0, "flate">>, <<102, 0, 5, "non
 
 AllItems ==
   {Str("direct", ng[1], ng[2], s[1], s[2]) : ng \in DirectNG, s \in DictShape}
-  \cup {Str("direct", 1, 0, 5, 0), Str("direct", 6, 0, 14, 0), Str("direct", 6, 0, 12, 0)}
+  \cup {Str("direct", 1, 0, 5, 0), Str("direct", 6, 0, 12, 0)}
+  \* indirect objects that ARE a string (nest -1; 40 is /Info /Title), an array of strings, a name, a number
+  \cup {Str("direct", 40, 0, 5, -1), Str("direct", 41, 1, 16, -1), Str("direct", 43, 0, 5, -1),
+        Str("direct", 42, 0, 5, 0), Str("direct", 42, 0, 16, 1)}
+  \cup {[loc |-> "direct", kind |-> "atom", type |-> ty, n |-> n, g |-> 0, len |-> l, filt |-> "-", nest |-> -1] :
+          <<ty, n, l>> \in {<<"name", 44, 10>>, <<"number", 45, 5>>}}
   \cup {Str("objstm", n, 0, s[1], s[2]) : n \in {20, 21}, s \in DictShape}
   \cup {Str("streamdict", sp[1], sp[2], s[1], s[2]) : sp \in StreamSpecs, s \in {<<5, 0>>, <<16, 1>>}}
   \cup {Stm("streamdata", "plain", sp[1], sp[2], sp[3], sp[4]) : sp \in StreamSpecs}
@@ -70,8 +75,9 @@ DictCfg == {c \in Valid(MkDv(Algs({128}), OnePerm, {"present"}, {"table"}, {"dir
               c.V >= 4 /\ (c.dv = "alt" => c.cfm \in {"V2", "AESV2", "AESV3"})}
 DictTried == {"a", "b", "w"}
 \* "content": every configuration x ID x physical form x Encrypt placement x every item location, both passwords
-ContentQuick == Valid(Mk(Algs(KeyLensQuick), OnePerm, {"present"}, {"table", "xrefstm"}, {"direct", "indirect"}))
-ContentFull  == Valid(Mk(Algs(KeyLensFull), OnePerm, BothIds, {"table", "xrefstm"}, {"direct", "indirect"}))
+AllForms == {"table", "xrefstm", "hybrid", "xrefstmw0"}     \* xrefstmw0: cross-reference stream with /W [1 2 0]
+ContentQuick == Valid(Mk(Algs(KeyLensQuick), OnePerm, {"present"}, AllForms, {"direct", "indirect"}))
+ContentFull  == Valid(Mk(Algs(KeyLensFull), OnePerm, BothIds, AllForms, {"direct", "indirect"}))
 \* "mixed": the full product on reduced sets (thorough tier)
 MixedCfg == Valid(Mk(Algs({40, 128}), {{"print"}, {"modify", "extract"}}, BothIds, {"table", "xrefstm"}, {"direct", "indirect"}))
 MixedTried == {"e", "a", "b", "w", "x", "L2", "n", "N", "N2", "B33"}
